@@ -230,7 +230,7 @@ def read_swans(
     cycles = list()
     dsets = SortedDict()
     tabs = SortedDict()
-    all_times = list()
+    all_times = SortedDict()
     all_sites = SortedDict()
     all_lons = SortedDict()
     all_lats = SortedDict()
@@ -319,7 +319,7 @@ def read_swans(
                 all_sites[cycle] = sites
                 all_lons[cycle] = lons
                 all_lats[cycle] = lats
-                all_times.append(times)
+                all_times[cycle] = times
                 nsites = 1
             else:
                 dsets[cycle].append(arr)
@@ -413,7 +413,7 @@ def read_swans(
         wdirs = wdirs[cycle] if attrs.WDIRNAME in tabs[cycle][0] else None
 
     # Creating dataset
-    times = flatten_list(all_times, [])
+    times = flatten_list(list(all_times.values()), [])
     dsets = xr.DataArray(
         data=dsets,
         coords=OrderedDict(
